@@ -33,6 +33,10 @@ pub const TYPES: &[TypeMap] = &[
     TypeMap { rust: "Operation", lean: "Semver.Operation" },
     TypeMap { rust: "Partial", lean: "Semver.Partial" },
     TypeMap { rust: "VersionDiff", lean: "Semver.VersionDiff" },
+    TypeMap { rust: "SemverParseError", lean: "Semver.PErr" },
+    TypeMap { rust: "SemverErrorKind", lean: "Semver.EKind" },
+    TypeMap { rust: "Extras", lean: "Semver.Gen.Extras" },
+    TypeMap { rust: "char", lean: "Char" },
 ];
 
 /// tuple structs with one field that the model represents by that field
@@ -59,6 +63,15 @@ pub const VARIANTS: &[(&str, &str, &str)] = &[
     ("VersionDiff", "PreMinor", "Semver.VersionDiff.preMinor"),
     ("VersionDiff", "PrePatch", "Semver.VersionDiff.prePatch"),
     ("VersionDiff", "PreRelease", "Semver.VersionDiff.preRelease"),
+    ("Extras", "Build", "Semver.Gen.Extras.Build"),
+    ("Extras", "Release", "Semver.Gen.Extras.Release"),
+    ("Extras", "ReleaseAndBuild", "Semver.Gen.Extras.ReleaseAndBuild"),
+    ("SemverErrorKind", "ParseIntError", "Rust.parse_int_error_kind"),
+    ("SemverErrorKind", "MaxIntError", "Semver.EKind.maxInt"),
+    ("SemverErrorKind", "NoValidRanges", "Semver.EKind.noValidRanges"),
+    ("SemverErrorKind", "MaxLengthError", "Semver.EKind.maxLength"),
+    ("SemverErrorKind", "IncompleteInput", "Semver.EKind.incompleteInput"),
+    ("SemverErrorKind", "Other", "Semver.EKind.other"),
     ("Ordering", "Less", "Ordering.lt"),
     ("Ordering", "Equal", "Ordering.eq"),
     ("Ordering", "Greater", "Ordering.gt"),
@@ -68,6 +81,15 @@ pub const VARIANTS: &[(&str, &str, &str)] = &[
 
 /// struct field -> field of the model's structure (identity unless listed)
 pub const FIELDS: &[(&str, &str)] = &[("pre_release", "pre")];
+
+/// fields of one struct that are named differently in the model
+pub const STRUCT_FIELDS: &[(&str, &str, &str)] = &[
+    ("SemverParseError", "input", "rest"),
+    ("SemverParseError", "context", "ctx"),
+];
+
+/// types whose shape is not compared with the model's (generic, or generated here)
+pub const NO_SHAPE: &[&str] = &["SemverParseError", "SemverErrorKind", "SemverError", "Extras"];
 
 /// constants of the crate -> constants of the model
 pub const CONSTS: &[(&str, &str)] = &[
@@ -85,9 +107,14 @@ pub enum Item {
     CanonicalPartialCmp { ty: &'static str },
     /// the `idx`-th closure (in source order) inside the free function `func`; parameter and result
     /// types are given here because Rust infers them
-    Closure { func: &'static str, idx: usize, lean: &'static str, params: &'static [&'static str], ret: &'static str },
+    /// `params` = types of the captured variables (`captures`) followed by those of the closure's parameters
+    Closure { func: &'static str, idx: usize, lean: &'static str, captures: &'static [&'static str], params: &'static [&'static str], ret: &'static str },
     /// a `const`
     Const { name: &'static str },
+    /// an enum of the crate without counterpart in the model: the inductive type is generated
+    GenType { name: &'static str },
+    /// a winnow parser: `fn name(input: &mut &str) -> PResult<T, _>`
+    Parser { name: &'static str },
 }
 
 use Item::*;
@@ -160,12 +187,43 @@ pub const ITEMS: &[Item] = &[
     Method { ty: "Range", tr: "Display", name: "fmt" },
     Method { ty: "Version", tr: "", name: "satisfies" },
     Method { ty: "Version", tr: "From<Partial>", name: "from" },
-    Closure { func: "range", idx: 0, lean: "Semver.Gen.range_fold", params: &["(List (Option Semver.BoundSet))"], ret: "(List Semver.BoundSet)" },
-    Closure { func: "bound_sets", idx: 0, lean: "Semver.Gen.bound_sets_flatten", params: &["(List (List Semver.BoundSet))"], ret: "(List Semver.BoundSet)" },
-    Closure { func: "primitive", idx: 0, lean: "Semver.Gen.primitive_table", params: &["(Semver.Operation × Semver.Partial)"], ret: "(Option Semver.BoundSet)" },
-    Closure { func: "partial", idx: 0, lean: "Semver.Gen.partial_table", params: &["Semver.Partial"], ret: "(Option Semver.BoundSet)" },
-    Closure { func: "tilde", idx: 0, lean: "Semver.Gen.tilde_table", params: &["(Option (List Char) × Semver.Partial)"], ret: "(Option Semver.BoundSet)" },
-    Closure { func: "caret", idx: 0, lean: "Semver.Gen.caret_table", params: &["Semver.Partial"], ret: "(Option Semver.BoundSet)" },
+    Closure { func: "range", idx: 0, lean: "Semver.Gen.range_fold", captures: &[], params: &["(List (Option Semver.BoundSet))"], ret: "(List Semver.BoundSet)" },
+    Closure { func: "bound_sets", idx: 0, lean: "Semver.Gen.bound_sets_flatten", captures: &[], params: &["(List (List Semver.BoundSet))"], ret: "(List Semver.BoundSet)" },
+    Closure { func: "primitive", idx: 0, lean: "Semver.Gen.primitive_table", captures: &[], params: &["(Semver.Operation × Semver.Partial)"], ret: "(Option Semver.BoundSet)" },
+    Closure { func: "partial", idx: 0, lean: "Semver.Gen.partial_table", captures: &[], params: &["Semver.Partial"], ret: "(Option Semver.BoundSet)" },
+    Closure { func: "tilde", idx: 0, lean: "Semver.Gen.tilde_table", captures: &[], params: &["(Option (List Char) × Semver.Partial)"], ret: "(Option Semver.BoundSet)" },
+    Closure { func: "caret", idx: 0, lean: "Semver.Gen.caret_table", captures: &[], params: &["Semver.Partial"], ret: "(Option Semver.BoundSet)" },
+    // ---- the winnow parsers of src/lib.rs
+    Closure { func: "number", idx: 0, lean: "Semver.Gen.number_check", captures: &["copied"], params: &["(List Char)", "(List Char)"], ret: "(Except Semver.PErr Nat)" },
+    Parser { name: "number" },
+    Closure { func: "identifier", idx: 1, lean: "Semver.Gen.identifier_classify", captures: &[], params: &["(List Char)"], ret: "Semver.Ident" },
+    Parser { name: "identifier" },
+    Parser { name: "pre_release" },
+    Parser { name: "build" },
+    GenType { name: "Extras" },
+    Method { ty: "Extras", tr: "", name: "values" },
+    Parser { name: "extras" },
+    Parser { name: "version_core" },
+    Parser { name: "version" },
+    // ---- the winnow parsers of src/range.rs
+    Parser { name: "x_or_asterisk" },
+    Parser { name: "component" },
+    Parser { name: "partial_version" },
+    Parser { name: "operation" },
+    Parser { name: "primitive" },
+    Parser { name: "partial" },
+    Parser { name: "tilde_gt" },
+    Parser { name: "tilde" },
+    Parser { name: "caret" },
+    Parser { name: "hyphen::parser" },
+    Parser { name: "hyphen" },
+    Parser { name: "garbage" },
+    Parser { name: "simple" },
+    Parser { name: "range" },
+    Parser { name: "logical_or" },
+    Parser { name: "bound_sets" },
+    Closure { func: "range_set", idx: 0, lean: "Semver.Gen.range_set_check", captures: &["input"], params: &["(List Char)", "(List Semver.BoundSet)"], ret: "(Except Semver.PErr Semver.Range)" },
+    Parser { name: "range_set" },
 ];
 
 /// functions of the crate that are deliberately not translated: they are tied to the model by the
@@ -181,10 +239,5 @@ pub const BY_CORRESPONDENCE_ONLY: &[&str] = &[
     // entry points that wrap the winnow parsers, serde, FromStr
     "Version::parse", "Version::serialize", "Version::deserialize", "Version::from_str", "Version::partial_cmp",
     "Range::parse", "Range::serialize", "Range::deserialize", "Range::from_str", "Bound::partial_cmp",
-    "Operation::fmt", "Extras::values",
-    // winnow parsers (combinator expressions; their tables are translated as closures)
-    "version", "extras", "version_core", "build", "pre_release", "identifier", "number",
-    "range_set", "bound_sets", "logical_or", "range", "simple", "garbage", "primitive", "operation",
-    "partial", "partial_version", "component", "x_or_asterisk", "tilde_gt", "tilde", "caret", "hyphen",
-    "hyphen::parser",
+    "Operation::fmt",
 ];
